@@ -5,6 +5,9 @@ import "verif/harness/internal/fw"
 var All = map[string]*fw.Prop{
 	"C01": C01,
 	"C02": C02,
+	"C04": C04,
+	"C05": C05,
+	"C14": C14,
 	"C16": C16,
 	"C17": C17,
 }
